@@ -407,6 +407,19 @@ def cache_session(args):
                     clock[0] = int(max([clock[0]] + [int(v) for v in mtimes.values()])) + 1
                     mtimes[paths["gtf"]] = float(clock[0])
                     mtimes[paths["gtf_gz"]] = float(clock[0])
+                elif op == "restore_old_gtf":
+                    # the file is replaced by a different annotation that carries an OLDER mtime (cp -p, rsync -a, tar x)
+                    with open(paths["gtf"]) as f:
+                        lines = f.readlines()
+                    tids = re.findall(r'transcript_id "([^"]+)"', "".join(lines))
+                    victim = tids[0] if tids else None
+                    keep = [l for l in lines if victim is None or ('transcript_id "%s"' % victim) not in l]
+                    with open(paths["gtf"], "w") as f:
+                        f.writelines(keep)
+                    base = mtimes.get(paths["gtf"])
+                    if base is None:
+                        base = float(clock[0])
+                    mtimes[paths["gtf"]] = float(base) - 1000.0 - len(mtimes)
                 elif op == "touch_gtf":
                     clock[0] = int(max([clock[0]] + [int(v) for v in mtimes.values()])) + 1
                     mtimes[paths["gtf"]] = float(clock[0])
